@@ -1,12 +1,16 @@
 package hx
 
 import (
+	"bytes"
 	"fmt"
 	"net"
 	"strings"
 	"testing"
 	"testing/synctest"
 	"time"
+
+	"git.sr.ht/~adrian-blx/psa-dhcp/lib/dhcpmsg"
+	"git.sr.ht/~adrian-blx/psa-dhcp/lib/server/replies"
 )
 
 // runSteps runs an explicit list of messages against a fresh real server (virtual clock),
@@ -65,9 +69,42 @@ func runStepsKeep(t *testing.T, s *Stream, c *SrvConf, steps []scriptStep, tag s
 // TestReqMatrix: C04 — the full matrix of IP destination x server identifier x requested address x
 // source address x sender's binding x sender identity, each cell against a fresh real server,
 // followed by two probe messages that reveal whether state changed.
+// retainedFrames: a reply frame must not change once it is assembled — handlers run concurrently and each holds its
+// frame until the socket write; a frame that lives in a recycled buffer is overwritten by the next reply (C06: the reply
+// then carries another client's transaction id, hardware address and address).
+func retainedFrames(s *Stream) {
+	self := net.IPv4(10, 0, 0, 1)
+	optsA := []dhcpmsg.DHCPOpt{dhcpmsg.OptionSubnetMask(net.IPv4Mask(255, 255, 255, 0)), dhcpmsg.OptionRouter(self)}
+	type asm func(uint32, net.IP, net.HardwareAddr) []byte
+	kinds := map[string]asm{
+		"offer": func(x uint32, ip net.IP, m net.HardwareAddr) []byte { return replies.AssembleOffer(x, 0, self, ip, m, optsA) },
+		"ack":   func(x uint32, ip net.IP, m net.HardwareAddr) []byte { return replies.AssembleACK(x, 0x8000, self, ip, m, optsA) },
+		"nak":   func(x uint32, ip net.IP, m net.HardwareAddr) []byte { return replies.AssembleNACK(x, self, m) },
+	}
+	for _, k1 := range []string{"offer", "ack", "nak"} {
+		for _, k2 := range []string{"offer", "ack", "nak"} {
+			for round := 0; round < 4; round++ {
+				f1 := kinds[k1](0x1111, net.IPv4(10, 0, 0, 50), net.HardwareAddr{2, 0, 0, 0, 0, 0xa1})
+				before := append([]byte(nil), f1...)
+				_ = kinds[k2](0x2222, net.IPv4(10, 0, 0, 60), net.HardwareAddr{2, 0, 0, 0, 0, 0xb2})
+				s.Count("retained-frames")
+				if !bytes.Equal(before, f1) {
+					for _, pid := range []string{"C06", "C09"} {
+						s.Find(Finding{Property: pid, Stream: "reqmatrix", Signature: "retained-frames",
+							What: "a reply frame changed after it was assembled when the next reply was assembled (shared buffer between handlers): the reply no longer echoes its own request",
+							Ops: []string{"assemble " + k1 + " xid=1111 for 02:00:00:00:00:a1", "assemble " + k2 + " xid=2222 for 02:00:00:00:00:b2"}, Expected: Hex(before), Observed: Hex(f1)})
+					}
+					return
+				}
+			}
+		}
+	}
+}
+
 func TestReqMatrix(t *testing.T) {
 	s := NewStream("reqmatrix")
 	defer s.Close()
+	retainedFrames(s)
 	base := uint32(10)<<24 | 5<<8
 	self := U32IP(base + 1)
 	A, B := U32IP(base+100), U32IP(base+101)
